@@ -362,6 +362,7 @@ def results_before_copy(repo: Repo) -> RuleRun:
         w = Obj(f"w{i}")
         w.set("grading", mk_grading(f"w{i}.grading0"))
         w.set("length", Sym(f"len{i}"))
+        w.set("is_valid", True)
         # every wire is shared with a block that is graded already, to other numbers
         cw = Obj(f"cw{i}")
         foreign = Obj(f"foreign{i}", is_defined=True, count=Sym("foreign-count"))
@@ -479,6 +480,7 @@ def axis_length(repo: Repo) -> RuleRun:
             w = Obj(f"w{i}")
             w.set("edge", Obj(f"e{i}", length=ln))
             w.set("length", ln)
+            w.set("is_valid", True)
             w.set("grading", Obj(f"g{i}", length=0.0))
             wires.append(w)
         mgr = Obj("mgr", cls=cls)
@@ -536,6 +538,7 @@ def live_grading_length(repo: Repo) -> RuleRun:
             g.set("length", Sym(f"stale{i}"))
             w.set("grading", g)
             w.set("length", Sym(f"now{i}"))
+            w.set("is_valid", True)
             w.set("edge", Obj(f"e{i}", length=Sym(f"now{i}")))
             w.set("coincidents", set())
             wires.append(w)
